@@ -1417,7 +1417,7 @@ func (p *Parser[V]) parseMap(tokenizer *Tokenizer, constants Identifiers[V]) (*M
 			} else {
 				if tokenizer.Peek().typ != tCloseCurly {
 					found := tokenizer.Next()
-					return nil, t.Errorf("unexpected token, expected ',' or '}', found %v", found)
+					return nil, found.Errorf("unexpected token, expected ',' or '}', found %v", found)
 				}
 			}
 		default:
